@@ -1,22 +1,63 @@
-"""GNU as (--32, Intel syntax) used only as a VALIDITY FILTER for generated lines (never as the deciding step)."""
+"""GNU as (--32, Intel syntax).  Used (a) as VALIDITY FILTER for generated lines and (b) to say which
+instruction a line denotes: the line is assembled by GNU as and read back by objdump, so both sides of the
+comparison in C02 go through the same disassembler.  Never the deciding step of a solver obligation."""
 import os
 import re
 import subprocess
 import tempfile
 
+SLOT = 32
 
-def valid_lines(lines, att=False):
-    """-> set of indices of the lines GNU as accepts"""
+
+def reference(lines, att=False):
+    """-> list of (length, objdump text) or None (GNU as rejects the line or warns about it)"""
     if not lines:
-        return set()
+        return []
     with tempfile.TemporaryDirectory() as d:
         src = os.path.join(d, 'x.s')
-        with open(src, 'w') as f:
-            f.write('.text\n' + ('' if att else '.intel_syntax noprefix\n'))
-            for l in lines:
-                f.write(l + '\n')
-        p = subprocess.run(['as', '--32', '-o', os.path.join(d, 'x.o'), src], capture_output=True, text=True)
+        obj = os.path.join(d, 'x.o')
         bad = set()
-        for m in re.finditer(r'x\.s:(\d+): (Error|Fatal)', p.stderr):
-            bad.add(int(m.group(1)) - (2 if att else 3))
-        return set(range(len(lines))) - bad
+        todo = list(range(len(lines)))
+        for attempt in range(3):
+            with open(src, 'w') as f:
+                f.write('.text\n' + ('' if att else '.intel_syntax noprefix\n'))
+                for k, l in enumerate(lines):
+                    f.write('.org %d, 0x90\n' % (k * SLOT))
+                    f.write((l if k not in bad else 'nop') + '\n')
+                f.write('.org %d, 0x90\nnop\n' % (len(lines) * SLOT))
+            p = subprocess.run(['as', '--32', '-o', obj, src], capture_output=True, text=True)
+            newbad = set()
+            for m in re.finditer(r'x\.s:(\d+): (Error|Fatal|Warning)', p.stderr):
+                ln = int(m.group(1))
+                k = (ln - (2 if att else 3)) // 2
+                if 0 <= k < len(lines):
+                    newbad.add(k)
+            if p.returncode == 0 and not (newbad - bad):
+                bad |= newbad
+                break
+            bad |= newbad
+        if not os.path.exists(obj):
+            return [None] * len(lines)
+        out = subprocess.run(['objdump', '-d', '-M', 'intel', '--no-show-raw-insn', obj], capture_output=True, text=True).stdout
+    starts, addrs = {}, []
+    for line in out.splitlines():
+        m = re.match(r'^\s*([0-9a-f]+):\t(.*)$', line)
+        if m:
+            a = int(m.group(1), 16)
+            starts[a] = m.group(2).strip()
+            addrs.append(a)
+    addrs.sort()
+    nxt = {a: (addrs[i + 1] if i + 1 < len(addrs) else a + 1) for i, a in enumerate(addrs)}
+    res = []
+    for k in range(len(lines)):
+        a = k * SLOT
+        if k in bad or a not in starts:
+            res.append(None)
+        else:
+            res.append((nxt[a] - a, starts[a]))
+    return res
+
+
+def valid_lines(lines, att=False):
+    r = reference(lines, att)
+    return set(i for i, x in enumerate(r) if x is not None)
